@@ -14,6 +14,7 @@ import (
 	grpc_testing "google.golang.org/grpc/interop/grpc_testing"
 	"google.golang.org/grpc/metadata"
 	"google.golang.org/grpc/status"
+	"google.golang.org/protobuf/encoding/protowire"
 	"google.golang.org/protobuf/proto"
 	"google.golang.org/protobuf/reflect/protoreflect"
 	"google.golang.org/protobuf/reflect/protoregistry"
@@ -217,6 +218,18 @@ type MsgSpec struct {
 	// out with the compressed flag 0 (legal per message; grpc-go does it for
 	// empty messages)
 	Plain bool `json:"plain,omitempty"`
+	// Unknown: the encoded message also carries a field the schema does not
+	// declare (a client built against a newer schema); protobuf keeps such
+	// fields, so they must arrive
+	Unknown bool `json:"unknown,omitempty"`
+}
+
+// withUnknown adds an undeclared field (number 1000, bytes) to m.
+func withUnknown(m proto.Message, seed uint64) proto.Message {
+	raw := protowire.AppendTag(nil, 1000, protowire.BytesType)
+	raw = protowire.AppendBytes(raw, []byte("future-"+strconv.FormatUint(seed%1000, 10)))
+	m.ProtoReflect().SetUnknown(raw)
+	return m
 }
 
 // ---- handler scripts ---------------------------------------------------------
